@@ -116,10 +116,13 @@ def expanded_utilities(case):
 
 def root_causes(out: Outcome, an: "Analysis"):
     """Root-cause predicates of known findings, computed from the input and the reference only."""
-    site = an.site
+    root_causes_of_case(out, an.case, an.site)
+
+
+def root_causes_of_case(out: Outcome, case: dict, site):
     if site is None:
         return
-    us = expanded_utilities(an.case)
+    us = expanded_utilities(case)
     if site.hot:
         cu_t_max = min(s.smin for s in site.hot)
         cold_capable = [u for u in us if u["type"] in ("Cold", "Both")]
